@@ -42,9 +42,13 @@ Definition conv_ok (c : mask_case) : bool :=
   forallb (fun e => same_bits (degrees F64 (fst e)) (snd e)) (c_deg c)
   && forallb (fun e => same_bits (radians F64 (fst e)) (snd e)) (c_rad c).
 
+(* a libm value the model needs but the implementation never computed comes back as NaN and poisons the window *)
+Definition win_ok (w : win (T := float)) : bool :=
+  negb (f_isnan (latlo w) || f_isnan (lathi w) || f_isnan (wa w) || f_isnan (wb w)).
+
 Definition chk_mask (fixed : bool) (c : mask_case) : bool :=
   let w := win_of fixed c in
-  list_eqb Bool.eqb (map (keep F64 np_remainder w) (c_pts c)) (c_mask c) && conv_ok c.
+  list_eqb Bool.eqb (map (keep F64 np_remainder w) (c_pts c)) (c_mask c) && conv_ok c && win_ok w.
 
 (* attribution: for the listed points, which window rejects them; and the winding class *)
 Definition reasons (fixed : bool) (c : mask_case) (idx : list nat) : Z * list Z :=
